@@ -6,6 +6,7 @@ import (
 	"fmt"
 	"sort"
 	"strings"
+	"sync"
 )
 
 const (
@@ -95,9 +96,20 @@ func sanitize(s string) string {
 	return b.String()
 }
 
+// selector name -> field index (filled by TypeMap when datatypes are declared)
+var selIndex sync.Map
+
 func app(f string, args ...string) string {
 	if len(args) == 0 {
 		return f
+	}
+	if len(args) == 1 && strings.HasPrefix(args[0], "(mk.T.") {
+		if idx, ok := selIndex.Load(f); ok {
+			parts := splitSexp(args[0][1 : len(args[0])-1])
+			if i := idx.(int); i+1 < len(parts) && strings.HasPrefix(f, parts[0][3:]+".") {
+				return parts[i+1]
+			}
+		}
 	}
 	return "(" + f + " " + strings.Join(args, " ") + ")"
 }
@@ -219,7 +231,113 @@ func IntLit(n int64) string {
 	return fmt.Sprintf("%d", n)
 }
 
-func Select(a, i string) string   { return app("select", a, i) }
+// Select with syntactic select-over-store simplification.
+func Select(a, i string) string {
+	for strings.HasPrefix(a, "(store ") {
+		parts := splitSexp(a[1 : len(a)-1])
+		if len(parts) != 4 {
+			break
+		}
+		if parts[2] == i {
+			return parts[3]
+		}
+		if distinctRefs(parts[2], i) {
+			a = parts[1]
+			continue
+		}
+		break
+	}
+	return app("select", a, i)
+}
+
+// allocation-base ancestry: base -> (parent base, offset of parent when this base was created)
+var allocParent = map[string]struct {
+	parent string
+	off    int
+}{}
+var allocMu sync.Mutex
+
+func noteAllocBase(nb, parent string, off int) {
+	allocMu.Lock()
+	allocParent[nb] = struct {
+		parent string
+		off    int
+	}{parent, off}
+	allocMu.Unlock()
+}
+
+// freshRef parses A0, A!n, (+ A0 k), (+ A!n k).
+func freshRef(t string) (string, int, bool) {
+	if t == "A0" || strings.HasPrefix(t, "A!") && !strings.ContainsAny(t, " ()") {
+		return t, 0, true
+	}
+	if strings.HasPrefix(t, "(+ A") && strings.HasSuffix(t, ")") {
+		f := strings.Fields(t[3 : len(t)-1])
+		if len(f) == 2 {
+			var k int
+			if _, err := fmt.Sscanf(f[1], "%d", &k); err == nil && fmt.Sprintf("%d", k) == f[1] {
+				if f[0] == "A0" || strings.HasPrefix(f[0], "A!") {
+					return f[0], k, true
+				}
+			}
+		}
+	}
+	return "", 0, false
+}
+
+func isIntLit(t string) bool {
+	if t == "" {
+		return false
+	}
+	for _, r := range t {
+		if r < '0' || r > '9' {
+			return false
+		}
+	}
+	return true
+}
+
+// distinctRefs: syntactically provable disequality of two reference/index terms.
+func distinctRefs(a, b string) bool {
+	if a == b {
+		return false
+	}
+	if isIntLit(a) && isIntLit(b) {
+		return true
+	}
+	ba, ka, fa := freshRef(a)
+	bb, kb, fb := freshRef(b)
+	neg := func(t string) bool { return strings.HasPrefix(t, "(elemref ") || strings.HasPrefix(t, "g.") }
+	if fa && fb {
+		if ba == bb {
+			return ka != kb
+		}
+		// is bb an ancestor of ba (ba newer)?
+		lower := func(newB string, newK int, oldB string, oldK int) bool {
+			lb := newK
+			cur := newB
+			allocMu.Lock()
+			defer allocMu.Unlock()
+			for i := 0; i < 1000; i++ {
+				p, ok := allocParent[cur]
+				if !ok {
+					return false
+				}
+				lb += p.off
+				cur = p.parent
+				if cur == oldB {
+					return oldK < lb
+				}
+			}
+			return false
+		}
+		return lower(ba, ka, bb, kb) || lower(bb, kb, ba, ka)
+	}
+	if (fa && (neg(b) || b == "0")) || (fb && (neg(a) || a == "0")) {
+		return true
+	}
+	return false
+}
 func Store(a, i, v string) string { return app("store", a, i, v) }
 
 func sortedKeys[V any](m map[string]V) []string {
